@@ -1,9 +1,11 @@
 (* C05/Proofs.v -- gathers the proof files of property C05 (Heap.v: Heap's algorithm; NqProofs.v:
    the canonical N-Quads writer re-reads; FirstDegree.v: BTreeMap lemmas, step 2, invariance of
    first-degree hashes; Bijection.v: issuer invariants and the identifier map; Invariance.v: the
-   tie flag erases, invariance when first-degree hashes are distinct) and adds the statements of
+   tie flag erases, invariance when first-degree hashes are distinct; Relabel1.v/Relabel.v:
+   invariance under relabelling when no hash path list has two equal hashes) and adds the statements of
    full invariance, its refutation (DESIGN.md section 4 row 28) and completeness. *)
-From Sophia.C05 Require Export Model Heap Reader NqProofs Ties FirstDegree Bijection Invariance.
+From Sophia.C05 Require Export Model Heap Reader NqProofs Ties FirstDegree Bijection Invariance
+  Relabel1 Relabel.
 From Coq Require Import Permutation.
 
 (* a concrete injective toy hash: the input prefixed by its length *)
@@ -21,7 +23,11 @@ Definition invariance_statement : Prop :=
     b1 = b2.
 (* The same with the explicit hypothesis that the run on d1 meets no tie (Ties.v): the statement
    RDFC-1.0 can be expected to satisfy.  NOT proved here (it is the correctness argument of
-   RDFC-1.0 itself); what is proved is [invariance_distinct_first_degree] (Invariance.v). *)
+   RDFC-1.0 itself).  What is proved: [invariance_under_relabelling] (Relabel.v: any label
+   bijection, same quad order, hypothesis: no two results of one hash path list carry the same
+   hash) and [invariance_distinct_first_degree] (Invariance.v: labels AND quad order, when no
+   two blank nodes share a first-degree hash).  Open: independence of the quad order when
+   hash-n-degree runs. *)
 Definition invariance_no_ties_statement : Prop :=
   forall (H : str -> str) fuel df pl (pi : str -> str) d1 d2 b1 i1 b2 i2,
     Forall wf_quad d1 -> Forall wf_quad d2 ->
@@ -73,10 +79,15 @@ Qed.
 (* the witness does meet a tie, so it does not contradict invariance_no_ties_statement *)
 Example w28_has_a_tie : run_ties toyH (mkVar true true) 20 (Some 1000) (Some 6) w28 = Some true.
 Proof. vm_compute. reflexivity. Qed.
+(* ... precisely a tie of step 5.3, the hypothesis excluded by invariance_under_relabelling *)
+Example w28_has_a_top_tie : top_ties toyH (mkVar true true) 20 (Some 1000) (Some 6) w28 = true.
+Proof. vm_compute. reflexivity. Qed.
 (* a dataset where hash-n-degree runs (e1 and e2 share a first-degree hash) without any tie *)
 Definition path4 : list quad :=
   [(w_b 0, w_p, w_b 1, None); (w_b 1, w_p, w_b 2, None); (w_b 2, w_p, w_b 3, None)].
 Example no_ties_nonvacuous : no_ties toyH 20 (Some 1000) (Some 6) path4.
+Proof. vm_compute. reflexivity. Qed.
+Example no_top_ties_nonvacuous : top_ties toyH (mkVar true true) 20 (Some 1000) (Some 6) path4 = false.
 Proof. vm_compute. reflexivity. Qed.
 
 (* ---------- (3) completeness: equal canonical documents only for isomorphic datasets ---------- *)
